@@ -28,6 +28,8 @@ func init() {
 		Rule: "cases i%3 != 2: a scenario of 12-30 parallel epochs under the race detector with 1..PopSize species (threshold sweep), GOMAXPROCS in " +
 			"{1,2,4,16}, boosted structural mutation and interspecies mating, PRNG-chosen delays injected at the Yield hook (between the scan " +
 			"of the innovation record and the issue of a number) and at ReproduceStart; after every epoch the C01 / C02 / C03 monitors run; " +
+			"cases i%6 == 1: 10 (quick) / 25 (thorough) cold starts - two-epoch scenarios on brand-new Options / Population objects with (nearly) every " +
+			"organism its own species and structural mutation forced, so that lazily initialised shared state is first touched by many goroutines at once; " +
 			"cases i%3 == 2: 20 (quick) / 60 (thorough) histories of 8-16 goroutines x <= 6 calls of NextInnovationNumber, NextNodeId, " +
 			"StoreInnovation, Innovations on a real Population, recorded at the client boundary and checked by porcupine against sequential " +
 			"models (two counters, one append-only list). Any data race report is a violation. evaluations = parallel epochs + histories. " +
@@ -43,7 +45,7 @@ func init() {
 		},
 		Run:          runC16,
 		Race:         true,
-		Required:     []string{"epochs.parallel", "epochs.multi_species_storing", "histories.checked", "histories.ok", "delays.injected", "gomaxprocs.1", "gomaxprocs.16"},
+		Required:     []string{"epochs.parallel", "epochs.multi_species_storing", "histories.checked", "histories.ok", "delays.injected", "gomaxprocs.1", "gomaxprocs.16", "cold_starts"},
 		TimeoutSec:   func(tier string) int { return 7200 },
 		PostChildren: c16CollectRaces,
 	})
@@ -52,6 +54,10 @@ func init() {
 func runC16(c *Ctx, idx int) {
 	if idx%3 == 2 {
 		c16Histories(c)
+		return
+	}
+	if idx%6 == 1 {
+		c16ColdStarts(c)
 		return
 	}
 	r := c.G
@@ -83,6 +89,46 @@ func runC16(c *Ctx, idx int) {
 		dseed: r.Int63(),
 	}
 	runScenario(c, sc, mon)
+}
+
+// c16ColdStarts runs many very short scenarios, each on a brand-new Options / Population pair, in which many species take
+// their first structural mutations of the run in the same epoch: state that is initialised lazily on first use (caches,
+// counters, registries) is touched by several reproduction goroutines at once only then.
+func c16ColdStarts(c *Ctx) {
+	r := c.G
+	n := 10
+	if c.Tier == "thorough" {
+		n = 25
+	}
+	prev := runtime.GOMAXPROCS(16)
+	defer runtime.GOMAXPROCS(prev)
+	for k := 0; k < n && !c.Violated(); k++ {
+		sc := genScenario(r, true)
+		sc.Parallel = true
+		sc.RestoreAt = 0
+		sc.Epochs = 2
+		if sc.Ctor == ctorRead {
+			sc.Ctor = ctorSpawn
+		}
+		sc.Opts.PopSize = pick(r, 20, 40, 60)
+		sc.Opts.BabiesStolen = 0
+		sc.Opts.CompatThreshold = pick(r, 0.01, 0.05, 0.2) // (nearly) every organism its own species
+		sc.Opts.MutdiffCoeff = 1
+		sc.Opts.MutateOnlyProb = 1
+		sc.Opts.MutateAddNodeProb = pick(r, 1.0, 0.7, 0.4)
+		sc.Opts.MutateAddLinkProb = pick(r, 1.0, 0.5)
+		for len(sc.Opts.NodeActivators) < 2 {
+			sc.Opts.NodeActivators = append(sc.Opts.NodeActivators, scalarActivations[r.Intn(len(scalarActivations))])
+			sc.Opts.NodeActivatorsProb = append(sc.Opts.NodeActivatorsProb, 0.5)
+		}
+		mon := &parMonitor{
+			wf:    &c01Monitor{},
+			pop:   &popMonitor{seenSpecies: map[int]*genetics.Species{}},
+			innov: &innovMonitor{links: map[int64]linkKey{}, roles: map[int]byte{}},
+		}
+		c.Count("cold_starts", 1)
+		runScenario(c, sc, mon)
+	}
 }
 
 // parMonitor composes the population monitors and records the interleaving of the reproduction goroutines
